@@ -293,6 +293,14 @@ func (m *sim) behave(d *def, name string, k int) (lua.LValue, *merr) {
 			m.fail("", "module(%q): _NAME/_PACKAGE are %s/%s", name, cv(e.Vals[1]), cv(e.Vals[2]))
 		}
 		return nil, nil
+	case "peek":
+		e := m.next("peek", d.id, "loader inspects its own package.loaded entry")
+		for _, v := range e.Vals {
+			if sv, ok := v.(lua.LString); ok && (gl.IsGoRuntimeErrorText(string(sv)) || strings.HasPrefix(string(sv), "Go panic")) {
+				m.fail("", "inspecting package.loaded[%q] while the module is being loaded (getmetatable / tostring / ==) surfaced a Go fault: %s", name, fw.Short(string(sv), 200))
+			}
+		}
+		return m.retEvent(d, "table"), nil
 	case "fail":
 		return nil, boom
 	case "failonce":
